@@ -93,6 +93,13 @@ func c07r1(c *Ctx, id string) {
 	gateOAE(c, id, oi, "all")
 	gateArgsRule(c, id, oi)
 	chk := oi.persist
+	if chk == nil && oi.waitFn != nil {
+		// the test is written out in the polling loop: "left only when the test holds" is part of the exhaustive
+		// evaluation of that loop (C07.R2 form: returns without sleeping ⇔ seq ≤ persistSeqNo ∨ closed)
+		persistTestOAE(c, id, oi)
+		c.Floor(id, 12)
+		return
+	}
 	c.need(chk != nil, id, "the persistence test: a (uint64) bool observer method polled in a loop under the gate (checkPersistSeqNo)")
 	// the wait loop: every edge leaving the loop that polls checkPersistSeqNo is the true edge of that test
 	var wait *ssa.Function
@@ -132,9 +139,37 @@ func c07r1(c *Ctx, id string) {
 	c.Floor(id, 12)
 }
 
+// persistTestOAE: the persistence test in its in-line form — the polling function returns without sleeping ⇔
+// seq ≤ persistSeqNo ∨ closed, and otherwise sleeps (the run is stopped at the first sleep: nothing changes the
+// threshold inside one abstract run).
+func persistTestOAE(c *Ctx, id string, oi *obsInfo) {
+	fn := oi.waitFn
+	recv, p := fn.Params[0].Name(), fn.Params[1].Name()
+	h := &Harness{Fn: fn, Groups: []Group{{Atoms: []string{p, recv + "." + oi.fPersist}, Unsigned: true}}, Bools: []string{recv + "." + oi.fClosed}, Quiet: quietLog,
+		StopAfter: func(e Effect) bool { return e.Name == "time.Sleep" }}
+	c.oae(id, "wait-test@"+fname(fn), fn.Pos(), h, func(st *State, out *Outcome) string {
+		if out.Panicked {
+			return "panics"
+		}
+		want := st.Le(p, recv+"."+oi.fPersist) || st.B(recv+"."+oi.fClosed)
+		slept := len(out.Effects("time.Sleep")) > 0
+		if want && slept {
+			return "keeps waiting although the event is covered (or the observer closed)"
+		}
+		if !want && !slept {
+			return "releases an event that is neither covered by the threshold nor released by Close"
+		}
+		return ""
+	}, "the wait is left (without sleeping) ⇔ seq ≤ persistSeqNo ∨ closed")
+}
+
 func c07r2(c *Ctx, id string) {
 	oi := observerInfo(c, id)
 	fn := oi.persist
+	if fn == nil && oi.waitFn != nil {
+		persistTestOAE(c, id, oi)
+		return
+	}
 	c.need(fn != nil, id, "the persistence test: a (uint64) bool observer method polled in a loop under the gate (checkPersistSeqNo)")
 	recv, p := fn.Params[0].Name(), fn.Params[1].Name()
 	h := &Harness{Fn: fn, Groups: []Group{{Atoms: []string{p, recv + "." + oi.fPersist}, Unsigned: true}}, Bools: []string{recv + "." + oi.fClosed}}
@@ -343,23 +378,55 @@ func c07r5(c *Ctx, id string) {
 	}
 	n := 0
 	var dispatch *ssa.Call
+	// a write of the report table: a direct store to record.seqNo / record.vbUUID, or a call of a setter of the record
+	// type whose body is exactly such a store of its parameter
+	want := map[string]string{"seqNo": "param(result).PersistSeqNo", "vbUUID": "param(result).VbUUID"}
+	recName := func(t types.Type) string { return recvTypeName(t) }
+	setterField := func(f *ssa.Function) string {
+		if f == nil || f.Signature.Recv() == nil || recName(f.Signature.Recv().Type()) != rsName || len(f.Params) != 2 {
+			return ""
+		}
+		field, nSt := "", 0
+		allInstrs(f, func(in ssa.Instruction) {
+			if st, ok := in.(*ssa.Store); ok {
+				nSt++
+				if fv := fieldOfAddr(st.Addr); fv != nil && st.Val == ssa.Value(f.Params[1]) {
+					field = fv.Name()
+				}
+			}
+		})
+		if nSt != 1 {
+			return ""
+		}
+		return field
+	}
+	seenField := map[string]bool{}
 	for _, u := range units {
 		allInstrs(u, func(in ssa.Instruction) {
+			if st, ok := in.(*ssa.Store); ok {
+				if fa, isFA := st.Addr.(*ssa.FieldAddr); isFA && recName(fa.X.Type()) == rsName {
+					if fv := fieldOfAddr(st.Addr); fv != nil && want[fv.Name()] != "" {
+						n++
+						seenField[fv.Name()] = true
+						check(in, "report."+fv.Name())
+						o := subst(in, w.Origin(st.Val))
+						c.Check(o == want[fv.Name()], id, "report."+fv.Name()+"-arg@"+fname(cb), in.Pos(), fv.Name()+" ← "+o, "the report table records "+fv.Name()+" ← "+o+", expected "+want[fv.Name()])
+					}
+				}
+				return
+			}
 			cc := callOf(in)
 			if cc == nil {
 				return
 			}
 			switch {
-			case isStaticCall(cc, "/couchbase", rsName, "SetSeqNo"):
+			case setterField(cc.StaticCallee()) != "" && want[setterField(cc.StaticCallee())] != "":
+				fld := setterField(cc.StaticCallee())
 				n++
-				check(in, "SetSeqNo")
+				seenField[fld] = true
+				check(in, "report."+fld)
 				o := subst(in, w.Origin(cc.Args[1]))
-				c.Check(o == "param(result).PersistSeqNo", id, "SetSeqNo-arg@"+fname(cb), in.Pos(), "seqNo ← result.PersistSeqNo", "SetSeqNo("+o+")")
-			case isStaticCall(cc, "/couchbase", rsName, "SetVbUUID"):
-				n++
-				check(in, "SetVbUUID")
-				o := subst(in, w.Origin(cc.Args[1]))
-				c.Check(o == "param(result).VbUUID", id, "SetVbUUID-arg@"+fname(cb), in.Pos(), "vbUUID ← result.VbUUID", "SetVbUUID("+o+")")
+				c.Check(o == want[fld], id, "report."+fld+"-arg@"+fname(cb), in.Pos(), fld+" ← "+o, "the report table records "+fld+" ← "+o+", expected "+want[fld])
 			case !cc.IsInvoke() && strings.HasSuffix(w.Origin(cc.Value), ".persistSeqNoDispatcher"):
 				n++
 				check(in, "dispatch")
@@ -367,8 +434,11 @@ func c07r5(c *Ctx, id string) {
 			}
 		})
 	}
+	if !seenField["seqNo"] || !seenField["vbUUID"] {
+		n = 0
+	}
 	if n < 3 || dispatch == nil {
-		c.Undecided(id, "callback-shape", cb.Pos(), "expected SetSeqNo, SetVbUUID and the dispatch in the observe callback (found %d)", n)
+		c.Undecided(id, "callback-shape", cb.Pos(), "expected the two report-table writes (seqNo, vbUUID) and the dispatch in the observe callback (found %d)", n)
 	} else {
 		// the replica updated is replicas[replica] of the observed vBucket, and the setters precede the dispatch
 		a := asAlloc(dispatch.Common().Args[0])
@@ -385,14 +455,24 @@ func c07r5(c *Ctx, id string) {
 				gm = call
 			}
 			okOrder := gm != nil
+			nW := 0
 			allInstrs(dispatch.Parent(), func(in ssa.Instruction) {
-				cc := callOf(in)
-				if cc != nil && (isStaticCall(cc, "/couchbase", rsName, "SetSeqNo") || isStaticCall(cc, "/couchbase", rsName, "SetVbUUID")) {
+				isWrite := false
+				if st, isSt := in.(*ssa.Store); isSt {
+					if fa, isFA := st.Addr.(*ssa.FieldAddr); isFA && recName(fa.X.Type()) == rsName && want[fieldOfAddr(st.Addr).Name()] != "" {
+						isWrite = true
+					}
+				} else if cc := callOf(in); cc != nil && want[setterField(cc.StaticCallee())] != "" {
+					isWrite = true
+				}
+				if isWrite {
+					nW++
 					if gm == nil || !dominatesInstr(in, gm) {
 						okOrder = false
 					}
 				}
 			})
+			okOrder = okOrder && nW >= 2
 			c.Check(okOrder, id, "dispatch-order", dispatch.Pos(), "the minimum is computed after both replica fields were updated", "the minimum is computed before the replica table is updated")
 		}
 	}
@@ -473,16 +553,21 @@ func gateOAE(c *Ctx, id string, oi *obsInfo, aspect string) {
 	seqP, ctlP := gate.Params[1].Name(), gate.Params[2].Name()
 	dis := recv + ".config.RollbackMitigation.Disabled"
 	chk, need := oi.persist, oi.need
-	c.need(chk != nil && need != nil, id, "the persistence test polled under the gate and the catch-up filter the gate consults (checkPersistSeqNo / needCatchup)")
+	c.need((chk != nil || oi.waitFn != nil) && need != nil, id, "the persistence test polled under the gate and the catch-up filter the gate consults (checkPersistSeqNo / needCatchup)")
 	// the function that polls the persistence test in a loop
 	var wait *ssa.Function
-	for _, fn := range w.ModFuncs {
-		cyc := cycleBlocks(fn)
-		allInstrs(fn, func(in ssa.Instruction) {
-			if cc := callOf(in); cc != nil && cc.StaticCallee() == chk && cyc[in.Block()] {
-				wait = fn
-			}
-		})
+	if chk == nil {
+		wait = oi.waitFn
+		chk = wait // its call is the wait itself
+	} else {
+		for _, fn := range w.ModFuncs {
+			cyc := cycleBlocks(fn)
+			allInstrs(fn, func(in ssa.Instruction) {
+				if cc := callOf(in); cc != nil && cc.StaticCallee() == chk && cyc[in.Block()] {
+					wait = fn
+				}
+			})
+		}
 	}
 	c.need(wait != nil, id, "a loop polling checkPersistSeqNo (the rollback-mitigation wait)")
 	noinl := map[string]bool{fname(need): true, fname(chk): true}
